@@ -549,14 +549,23 @@ CliInput(m, ev, g) ==
 TPToG(g, p) ==
   [g EXCEPT !.neg = p.y < 0, !.y = Abs(p.y), !.a = p.a, !.b = p.b, !.hh = p.sod \div 3600, !.mi = (p.sod % 3600) \div 60,
             !.ss = p.sod % 60, !.zh = p.zh, !.zm = p.zm]
+\* print formats: ev.pf = [kind |-> "none" | "strf" | "iso", toks (strf), g (iso: the form to print in), lz = <<has, zh, zm>>
+\* (iso: a literal zone in the format re-expresses the point in it)];  ev.pp = [has, toks]: --parse-format (strptime syntax)
+InRep(m, p, rep) == AtLocal(m, [p EXCEPT !.rep = rep], Local(m, p))
+InZone2(m, p, zh, zm) == AtLocal(m, [p EXCEPT !.zh = zh, !.zm = zm], Plus3(Local(m, p), <<0, ZoneSec(zh, zm) - ZoneSec(p.zh, p.zm), 0>>))
 CliPointClause(ev) ==
   LET m == Meaning(ev.cal)  g == ev.g
       p == ShiftAll(m, CliInput(m, ev, g), ev.offs, 1)
       \* with no offset nothing is normalised: the text comes back as written (24:00 stays 24:00)
-      out == IF Len(ev.offs) = 0 /\ ~ev.utc THEN g ELSE TPToG(g, p)
+      own == IF Len(ev.offs) = 0 /\ ~ev.utc THEN g ELSE TPToG(g, p)
+      pz == IF ev.pf.kind = "iso" /\ ev.pf.lz[1] THEN InZone2(m, p, ev.pf.lz[2], ev.pf.lz[3]) ELSE p
+      expect == CASE ev.pf.kind = "strf" -> StrfText(m, p, ev.pf.toks, 1)
+                  [] ev.pf.kind = "iso"  -> TPText(TPToG(ev.pf.g, InRep(m, pz, DateRep(ev.pf.g.dform))))
+                  [] ev.pp.has           -> StrfText(m, p, ev.pp.toks, 1)
+                  [] OTHER               -> TPText(own)
   IN IF ev.traceback THEN "traceback-" \o ev.cls
      ELSE IF ev.code # 0 THEN "exit-status-" \o ToString(ev.code)
-     ELSE IF ev.out # TPText(out) \o <<10>> THEN "printed-text-is-not-the-shifted-input-in-its-own-notation"
+     ELSE IF ev.out # expect \o <<10>> THEN "printed-text-is-not-the-shifted-input-in-the-expected-notation"
      ELSE "ok"
 CliDiffClause(ev) ==
   LET m == Meaning(ev.cal)
